@@ -53,6 +53,17 @@ type T41 struct {
 
 func (e *T41) get() (int, *pubInfo) { return e.V, e.p }
 
+// G46 is a generic event type: its name, "main.G46[main.gItem]", has a '[' before its last '.'
+type gItem struct{ N int }
+type G46[T any] struct {
+	V   int `json:"v"`
+	Bad any `json:"bad,omitempty"`
+	p   *pubInfo
+	X   T
+}
+
+func (e G46[T]) get() (int, *pubInfo) { return e.V, e.p }
+
 // U02..U05: four more event types, chosen so that the 46 harness types cover all 32 shards
 type U02 struct {
 	V   int `json:"v"`
@@ -155,6 +166,9 @@ type recStore struct {
 func tyOfName(name string) int {
 	if name == "json.RawMessage" {
 		return 40
+	}
+	if strings.HasPrefix(name, "main.G46[") {
+		return 46
 	}
 	if strings.HasPrefix(name, "main.U0") {
 		return 40 + atoi(name[len("main.U0"):])
@@ -262,19 +276,19 @@ type obsTyKey struct{}
 type regSpec struct {
 	ty, hid          int
 	once, async, seq bool
-	filtM, filtR     int // filtM == 0: no filter
+	filtM, filtR     int  // filtM == 0: no filter
 	filtCancels      bool // the filter cancels the context of the publish it is evaluated for
 	body             int
 }
 
 type typeOps struct {
-	subscribe   func(cs *busCase, r regSpec)
+	subscribe    func(cs *busCase, r regSpec)
 	subscribeNil func(cs *busCase, hid int) error
-	unsubscribe func(cs *busCase, hid int) error
-	clear       func(cs *busCase)
-	has         func(cs *busCase) bool
-	count       func(cs *busCase) int
-	publish     func(cs *busCase, ctx context.Context, v int, bad bool, p *pubInfo)
+	unsubscribe  func(cs *busCase, hid int) error
+	clear        func(cs *busCase)
+	has          func(cs *busCase) bool
+	count        func(cs *busCase) int
+	publish      func(cs *busCase, ctx context.Context, v int, bad bool, p *pubInfo)
 }
 
 // handle is the body of every handler closure.
@@ -363,6 +377,10 @@ func panicValue(k int) any {
 		return panickyStringer{7}
 	case 6:
 		return errors.New("6")
+	case 5:
+		return "5" + strings.Repeat("x", 240) // "handler panic: " + 241 bytes = 256 bytes
+	case 4:
+		return "reflect: call of reflect.Value.SetInt on zero Value (4)" // what package reflect itself panics with
 	}
 	return k
 }
@@ -377,6 +395,13 @@ func panicCode(v any) string {
 		return "7"
 	case error:
 		return x.Error()
+	case string:
+		if strings.HasPrefix(x, "5x") {
+			return "5"
+		}
+		if strings.HasPrefix(x, "reflect: ") {
+			return "4"
+		}
 	}
 	return fmt.Sprint(v)
 }
@@ -454,7 +479,7 @@ func parseAct(f []string) (action, bool) {
 		return action{}, false
 	}
 	switch f[0] {
-	case "sub", "unsub", "clear", "clearall", "pub", "cancel", "cancelid", "panic", "has", "count", "drain", "readlog", "wait", "subnil", "setpanich":
+	case "sub", "unsub", "clear", "clearall", "pub", "cancel", "cancelid", "panic", "has", "count", "drain", "readlog", "wait", "subnil", "setpanich", "sethook", "setperrh":
 		return action{f[0], f[1:]}, true
 	}
 	return action{}, false
@@ -499,6 +524,10 @@ func (cs *busCase) do(a action) {
 		switch a.args[3] {
 		case "fresh", "dead":
 			c, cancel := context.WithCancel(context.Background())
+			if a.args[3] == "dead" && cs.nextCtx%2 == 0 {
+				// a context that is over because its deadline has passed, not because somebody cancelled it
+				c, cancel = context.WithDeadline(context.Background(), time.Now().Add(-time.Second))
+			}
 			info.root = cs.nextCtx
 			cs.nextCtx++
 			info.cancel = cancel
@@ -543,6 +572,25 @@ func (cs *busCase) do(a action) {
 			cs.bus.SetPanicHandler(cs.panicHandler("panich2"))
 		} else {
 			cs.bus.SetPanicHandler(nil)
+		}
+	case "sethook":
+		// the legacy hook setters, used between publishes: they replace the legacy hook of that phase (nil removes it)
+		// and nothing else
+		var h eb.PublishHook
+		kind := a.args[0]
+		if a.args[1] == "1" {
+			h = func(t reflect.Type, e any) { cs.hook(kind, t, e) }
+		}
+		if kind == "bl" {
+			cs.bus.SetBeforePublishHook(h)
+		} else {
+			cs.bus.SetAfterPublishHook(h)
+		}
+	case "setperrh":
+		if arg(0) == 1 {
+			cs.bus.SetPersistenceErrorHandler(cs.perrHandler())
+		} else {
+			cs.bus.SetPersistenceErrorHandler(nil)
 		}
 	case "readlog":
 		st := cs.bus.GetStore()
@@ -676,10 +724,7 @@ func busDomain(lines []string) []string {
 				case w == "panich":
 					opts = append(opts, eb.WithPanicHandler(cs.panicHandler("panich")))
 				case w == "perrh":
-					opts = append(opts, eb.WithPersistenceErrorHandler(func(e any, t reflect.Type, err error) {
-						v, p := getVP(e)
-						cs.emit("perr %d %d %d %s", p.depth, tyOfName(t.String()), v, b01(strings.Contains(err.Error(), "marshal")))
-					}))
+					opts = append(opts, eb.WithPersistenceErrorHandler(cs.perrHandler()))
 				case w == "ptimeout":
 					opts = append(opts, eb.WithPersistenceTimeout(30*time.Millisecond))
 					cs.ptimeout = true
@@ -743,6 +788,13 @@ func busDomain(lines []string) []string {
 		cs.emit("%s", cs.otel.summary())
 	}
 	return cs.out
+}
+
+func (cs *busCase) perrHandler() eb.PersistenceErrorHandler {
+	return func(e any, t reflect.Type, err error) {
+		v, p := getVP(e)
+		cs.emit("perr %d %d %d %s", p.depth, tyOfName(t.String()), v, b01(strings.Contains(err.Error(), "marshal")))
+	}
 }
 
 // panicHandler: both the option-installed and the setter-installed handler print the same line (the model does
